@@ -1212,6 +1212,66 @@ def run_representation(block, ctx):
     ctx.sample({"callable": block[0]})
 
 
+# ---------------------------------------------------------------------------
+# clause: the comparison tolerance carried by an Angle argument is not part of the input value
+
+ARG_TOLS = [0.5, 1e-3, 0.0]
+
+
+def check_arg_tolerance(case):
+    """Every Angle handed to a call (arguments and, for Angle methods that return numbers, the receiver is
+    left alone) is given a non-default comparison tolerance with set_tolerance(); the numeric result must
+    be the one obtained with default-tolerance Angles: what a function computes depends on the values of
+    its angles, not on how coarsely the caller wants to compare them elsewhere."""
+    name = case["callable"]
+    S = SP.specs()
+    spec = S[name]
+    if spec["mutator"] or name.startswith("Angle."):
+        return []
+    base = base_tags(spec)
+    if not any(isinstance(t, tuple) and t and t[0] in ("A", "AL", "AT") for t in base):
+        return []
+    out = []
+    k0, r0, _, _ = do_call(name, spec, base, {})
+    ref = _values(r0) if k0 == "ok" else type(r0).__name__
+    # small-valued variants too: a tolerance only matters when an angle is compared with something close
+    variants = [base]
+    small = [("A", 0.004) if (isinstance(t, tuple) and t and t[0] == "A") else t for t in base]
+    if small != base:
+        variants.append(small)
+    for tags in variants:
+        kb, rb, _, _ = do_call(name, spec, tags, {})
+        refv = _values(rb) if kb == "ok" else type(rb).__name__
+        for tol in ARG_TOLS:
+            pool = {}
+            for t in tags:
+                obj = mk(t, pool)
+                for a in (obj if isinstance(obj, (list, tuple)) else [obj]):
+                    if isinstance(a, Angle):
+                        a.set_tolerance(tol)
+            k, r, _, _ = do_call(name, spec, tags, pool)
+            got = _values(r) if k == "ok" else type(r).__name__
+            if got != refv:
+                out.append("%s%r with the Angle arguments' tolerance set to %r gives %r, with the default tolerance %r"
+                           % (name, tuple(tags), tol, got, refv))
+    return out
+
+
+def run_arg_tolerance(block, ctx):
+    for name in block:
+        ctx.evals += 2 * (1 + len(ARG_TOLS))
+        ctx.transitions += 2 * len(ARG_TOLS)
+        ctx.states += 1
+        ctx.traces += 1
+        res = check_arg_tolerance({"callable": name})
+        if res is not None:
+            ctx.nt_count += 1
+        for msg in res:
+            ctx.viol({"callable": name}, msg, site="argument_tolerance")
+        ctx.outcome(name)
+    ctx.sample({"callable": block[0]})
+
+
 def clauses(tier):
     S = SP.specs()
     names = sorted(S)
@@ -1230,6 +1290,7 @@ def clauses(tier):
         Clause("totality", tot_blocks, run_totality, replay_totality, floor=500, shape="H"),
         Clause("representation_forms", chunks([n for n in order if any(p[0] == "numangle" for p in SP.specs()[n]["params"])], 4),
                run_representation, check_representation, floor=10, shape="H"),
+        Clause("argument_tolerance", chunks(order, 32), run_arg_tolerance, check_arg_tolerance, floor=100, shape="H"),
         Clause("dense_domains", chunks(dense_cases(), 64), run_dense, lambda c: [m for _, m in check_dense(c)],
                floor=5000, shape="H"),
         Clause("object_reset", chunks(reset_cases(tier), 8), run_reset, check_reset, floor=100, shape="H"),
